@@ -2,6 +2,7 @@
 #pragma once
 #include <Eigen/Core>
 #include <Eigen/SparseCore>
+#include <functional>
 #include <memory>
 #include <type_traits>
 #include "../seam/simop.h"
@@ -115,15 +116,26 @@ struct OpBox
     std::shared_ptr<void> wrapper;
     std::unique_ptr<IInner<S>> inner;
     std::unique_ptr<SimOp<S>> op;
+    std::function<IInner<S>*()> clone_inner;  // a second adaptor around the same wrapper object
     template <class W, class... Args>
     W& emplace(SeamCtl* ctl, Args&&... args)
     {
         auto p = std::make_shared<W>(std::forward<Args>(args)...);
         inner.reset(new InnerOf<S, W>(*p));
         wrapper = p;
+        clone_inner = [p]() -> IInner<S>* { return new InnerOf<S, W>(*p); };
         ctl->n = (long) p->rows();
         op.reset(new SimOp<S>(inner.get(), ctl));
         return *p;
+    }
+    // view on another box's wrapper
+    void share_from(const OpBox<S>& o, SeamCtl* ctl)
+    {
+        wrapper = o.wrapper;
+        clone_inner = o.clone_inner;
+        inner.reset(o.clone_inner());
+        ctl->n = (long) inner->rows();
+        op.reset(new SimOp<S>(inner.get(), ctl));
     }
 };
 
